@@ -9,9 +9,26 @@
     big          *big.Int (≥ 0)          decodeBigInt: no leading zero | writeBigInt (nil and 0 both → empty string)
     listOf s     []T                     decodeListSlice | makeSliceWriter
     struct fs    struct                  makeStructDecoder: exactly one element per field | makeStructWriter
-    optFixed n   *[n]byte `rlp:"nil"`    makeOptionalPtrDecoder: ANY empty value (empty string **or empty
-                                         list**: `size == 0 && kind != Byte`) is the nil pointer; the writer
-                                         emits the empty string for nil (makePtrWriter, byte-array case).
+    optFixed n   *[n]byte `rlp:"nil"`    makeOptionalPtrDecoder: the empty STRING is the nil pointer - the empty
+                                         value of the kind the writer emits for nil (makePtrWriter, byte-array
+                                         case; `nilKindOf`, since /repo ac28a64); the empty list is an error.
+                                         Before that fix ANY empty value (`size == 0 && kind != Byte`: empty
+                                         string **or empty list**) was the nil pointer.
+
+  The flag `fx : Bool` of the decoders: `true` = /repo as it is, with the C14 strictness fixes - what the driver runs and
+  what the theorems are about; `false` = the code before those fixes, kept for the labelled refutation witnesses only
+  (`LemoProofs.C14.Legacy.*`).  The encoders did not change and take no flag.  The fixes (branch c14fix of /repo; the
+  commit subjects identify them should the hashes change in a rebase):
+    ac28a64  fix: a pointer field tagged rlp:"nil" decoded the empty list 0xC0 as well as the empty string …   (common/rlp/decode.go)
+    05de783  fix: Header.DecodeRLP accepted a TxRoot/LogRoot byte string of any length …                      (chain/types/block.go)
+    8a6b205  fix: Profile.DecodeRLP took any size-zero item … and accepted duplicate or unsorted keys         (chain/types/account_data.go)
+    7e982c7  fix: ChangeLog.DecodeRLP handed on rlp.EOL when the list of the log had fewer than five elements (chain/types/change_log.go)
+    4ab6b74  fix: the change-log payload decoders decodeHash and decodeAddress ran BytesToHash/BytesToAddress … (chain/account/change_log.go)
+    a0389ea  fix: the change-log payload decoders decodeEmptyInterface, decodeSigners, decodeAsset, decodeEquity and
+             decodeProfileChangeLogExtra took every size-zero item … for nil                                  (chain/account/change_log.go)
+    29ca096  fix: decodeCandidate returned a *interface{} for a CandidateLog with an empty profile            (chain/account/change_log.go)
+    f02560a  fix: decodeSigners returned an untyped nil for a SignerLog with no signers                       (chain/account/change_log.go)
+    4e3d12b  fix: decodeAsset returned an untyped nil for an AssetCodeLog without asset                       (chain/account/change_log.go)
   The typed stream decoders read the same headers as the generic one (`Stream.Kind`), so a typed
   decoder accepts `b` iff the generic decoder accepts `b` as some item `it` and `decodeS s it` is a value
   (tied to the real code by the `typed <family> <hex>` ops of `hx c14`: same accept/reject and same re-encoding
@@ -42,26 +59,26 @@ def noLeadZero (b : List UInt8) : Bool := b.head? != some 0
 
 mutual
   /-- typed decoding of an already parsed item (`none` = the typed decoder returns an error) -/
-  def decodeS : Schema → Item → Option Val
+  def decodeS (fx : Bool) : Schema → Item → Option Val
     | .bytes, .bytes b => some (.bytes b)
     | .fixed n, .bytes b => if b.length = n then some (.bytes b) else none
     | .uint bits, .bytes b => if noLeadZero b ∧ b.length ≤ bits / 8 then some (.nat (fromBE b)) else none
     | .big, .bytes b => if noLeadZero b then some (.nat (fromBE b)) else none
-    | .listOf s, .list xs => (decodeAll s xs).map Val.list
-    | .struct fs, .list xs => (decodeFields fs xs).map Val.list
+    | .listOf s, .list xs => (decodeAll fx s xs).map Val.list
+    | .struct fs, .list xs => (decodeFields fx fs xs).map Val.list
     | .optFixed n, .bytes b => if b.isEmpty then some .nil else if b.length = n then some (.bytes b) else none
-    | .optFixed _, .list xs => if xs.isEmpty then some .nil else none
+    | .optFixed _, .list xs => if fx then none else if xs.isEmpty then some .nil else none
     | _, _ => none
-  def decodeAll : Schema → List Item → Option (List Val)
+  def decodeAll (fx : Bool) : Schema → List Item → Option (List Val)
     | _, [] => some []
     | s, x :: xs =>
-      match decodeS s x, decodeAll s xs with
+      match decodeS fx s x, decodeAll fx s xs with
       | some v, some vs => some (v :: vs)
       | _, _ => none
-  def decodeFields : List Schema → List Item → Option (List Val)
+  def decodeFields (fx : Bool) : List Schema → List Item → Option (List Val)
     | [], [] => some []
     | f :: fs, x :: xs =>
-      match decodeS f x, decodeFields fs xs with
+      match decodeS fx f x, decodeFields fx fs xs with
       | some v, some vs => some (v :: vs)
       | _, _ => none
     | _, _ => none
@@ -109,8 +126,9 @@ end
 /-! ### the custom layer of `Header.EncodeRLP/DecodeRLP` (block.go:193-243): root elision
 
   `E` is `merkle.EmptyTrieHash` (any fixed 32-byte value).  The encoder writes an empty string for a
-  root equal to `E`; the decoder maps an empty string to `E` and **any other byte string** through
-  `common.BytesToHash` (crop from the left / left-pad to 32 bytes). -/
+  root equal to `E`; the decoder maps an empty string to `E` and any other ACCEPTED byte string through
+  `common.BytesToHash` (crop from the left / left-pad to 32 bytes).  Since /repo 05de783 `decodeRoot` accepts
+  (`rootOk`) the empty string and the 32 bytes of a root other than `E` only; before, every byte string. -/
 
 def bytesToHash (b : List UInt8) : List UInt8 :=
   let b' := if b.length > 32 then b.drop (b.length - 32) else b
@@ -118,6 +136,8 @@ def bytesToHash (b : List UInt8) : List UInt8 :=
 
 def encRoot (E h : List UInt8) : List UInt8 := if h = E then [] else h
 def decRoot (E b : List UInt8) : List UInt8 := if b.isEmpty then E else bytesToHash b
+/-- `decodeRoot` (block.go): `len(b) == 0`, or `len(b) == 32` and not the empty-trie hash -/
+def rootOk (E b : List UInt8) : Bool := if b.isEmpty then true else decide (b.length = 32 ∧ b ≠ E)
 
 /-! ### consensus types (field lists read off the Go struct definitions) -/
 
